@@ -2,13 +2,13 @@
 from hypothesis import strategies as st
 
 from ..common import CaseInfo, Violation
-from ..oracles import Analysis
+from ..oracles import Analysis, check_round_follows
 from ..simharness import CancelLog, ExecutionLog, MarketStepBeginLog, OrderLog, run_case
 from ..strategies import market_names, crossing_pair, program_strategy, spec_strategy
 from ._sim_common import frac, summarize
 
 ID = "C16"
-RULE = ("Hypothesis generates 2 markets, a TradingHaltRule on one of them or (one case in four) on both (rate 0.005-0.1, haltingTimeLength 0-6), in a third of the cases a second independent rule (own rate, length, target) attached to "
+RULE = ("(one case in three registers an unrelated probe event with TIMED execution / step hooks before the rules; once a market runs again and its session executes, every accepted order or cancel on it must be followed by a round: oracles.check_round_follows) Hypothesis generates 2 markets, a TradingHaltRule on one of them or (one case in four) on both (rate 0.005-0.1, haltingTimeLength 0-6), in a third of the cases a second independent rule (own rate, length, target) attached to "
         "any session, 1-3 sessions with generated execution flags and lengths (so that halts end inside their session, at its "
         "end, or are cut by it), and scripted agents whose limit prices walk the price away from and back to the reference. A "
         "probe event registered after the rule records market price, p0 = get_market_price(0) and is_running after every fill. "
@@ -46,6 +46,11 @@ def cases(draw, tier):
         cfg["HALT2"] = {"class": "TradingHaltRule", "targetMarkets": [draw(st.sampled_from(names))],
                         "triggerChangeRate": draw(st.sampled_from([0.01, 0.03, 0.08])), "haltingTimeLength": draw(st.integers(0, 8))}
     cfg["P"] = {"class": "VProbeEvent", "hooks": [["execution", False, None, None, None]]}
+    timed = draw(st.integers(0, 2)) == 0
+    if timed:
+        # an unrelated event with TIMED execution / step hooks, registered before the rules (whose own hooks are untimed)
+        ts = sorted(draw(st.sets(st.integers(0, 14), min_size=1, max_size=5)))
+        cfg["PT"] = {"class": "VProbeEvent", "hooks": [["execution", False, ts, None, None], ["market", True, ts, None, None]]}
     ns = draw(st.integers(1, 3))
     hs = draw(st.integers(0, ns - 1))
     hs2 = draw(st.integers(0, ns - 1))
@@ -53,12 +58,12 @@ def cases(draw, tier):
         cfg["simulation"]["sessions"].append({"sessionName": s, "iterationSteps": draw(st.integers(2, 12 if tier == "quick" else 40)), "withOrderPlacement": True,
                                               "withOrderExecution": draw(st.sampled_from([True, True, True, False])), "withPrint": False,
                                               "maxNormalOrders": draw(st.integers(2, 6)),
-                                              "events": (["HALT"] if s == hs else []) + (["HALT2"] if second and s == hs2 else []) + (["P"] if s == ns - 1 else [])})
+                                              "events": (["PT"] if timed and s == 0 else []) + (["HALT"] if s == hs else []) + (["HALT2"] if second and s == hs2 else []) + (["P"] if s == ns - 1 else [])})
     return {"config": cfg, "seed": draw(st.integers(0, 2**31 - 1))}
 
 
 def check_case(case):
-    res = run_case(case)
+    res = run_case(case, {"exec_state": True})
     A = Analysis(case, res)
     sim, cfg = A.sim, case["config"]
     halt = cfg["HALT"]
@@ -147,7 +152,10 @@ def check_case(case):
     returned = len(A.returned_orders)
     if len(A.order_logs) != returned:
         raise Violation("C16.orders_accepted_during_halt", f"{returned} orders submitted, {len(A.order_logs)} accepted")
-    classes = (["two_targets"] if len(halt["targetMarkets"]) == 2 else []) + (["two_rules"] if len(rules) == 2 else []) + (["halt"] if n_halts else []) + (["two_halts"] if n_halts >= 2 else []) + (["accepted_during_halt"] if accepted_during_halt else []) + \
+    # matching really resumes: once a market runs again (and the session executes), every accepted order or cancel on it is
+    # followed by a round -- orders that crossed during the halt do not stay crossed
+    judged = check_round_follows(A, "C16")
+    classes = (["round_checks"] if judged else []) + (["two_targets"] if len(halt["targetMarkets"]) == 2 else []) + (["two_rules"] if len(rules) == 2 else []) + (["halt"] if n_halts else []) + (["two_halts"] if n_halts >= 2 else []) + (["accepted_during_halt"] if accepted_during_halt else []) + \
               (["cut_by_session"] if cut_by_session else []) + (["disabled"] if not enabled else [])
     return CaseInfo(nontrivial=n_halts >= 1, classes=classes, steps=A.total_steps,
                     sample={"rule": halt, "sessions": [(s["iterationSteps"], s["withOrderExecution"]) for s in A.sess_cfg], "halts": n_halts,
